@@ -39,8 +39,8 @@ def rnd_u64(rng):
 def rnd_fi(rng):
     ck = bytes(rng.getrandbits(8) for _ in range(32)) if rng.random() < 0.5 else (b"\0" * 32 if rng.random() < 0.5 else bytes([rng.getrandbits(8)]) + b"\0" * 31)
     f = [rnd_u64(rng) for _ in range(6)]
-    if all(x == 0 for x in f):
-        f[1] = 1
+    if rng.random() < 0.06:
+        f = [0] * 6          # the stat fields of the "missing" record - with ANY checksum: still an arbitrary file info that must survive the round trip
     return ":".join(str(x) for x in f) + ":" + ck.hex()
 
 def rnd_str(rng, allow_nul=False):
